@@ -27,3 +27,14 @@ def explore(cfg, eng, ctx):
 
 
 functions = kernels.functions
+
+DUMP_VCS = {"quick": 2, "thorough": 1}
+
+
+def cross_check(tier, had_violation, dumps=()):
+    """Second solver: a sample of the discharged VCs is re-decided by cvc5."""
+    from symex import second_solver
+    out = {"cvc5": second_solver.redecide(list(dumps), limit=300)}
+    if out["cvc5"]["sat"]:
+        out["disagree"] = True
+    return out
